@@ -4,8 +4,8 @@ EXTENDS MC_EvalBase
 
 \* ---- C16: names and member access
 Roots16 == { Id("m"), Id("tm"), Id("st"), Id("np"), Id("nl"), Id("undefined"), Id("s"), Id("n"), Id("a"), Id("len"), Id("abs"),
-             KwL("this"), Id("sl"), Id("tt"), Id("bt"), Id("nm"), Id("ns"), Id("ts"), Id("f63"), Id("f19") }
-Keys16 == {"a", "b", "z", "n", "A", "B", "N", "P", "c", "len", "q", "true", "null"}          \* keywords are ordinary names after a dot
+             KwL("this"), Id("sl"), Id("tt"), Id("bt"), Id("nm"), Id("ns"), Id("ts"), Id("f63"), Id("f19"), Id("ra"), Id("rb") }
+Keys16 == {"a", "b", "z", "n", "A", "B", "N", "P", "c", "len", "q", "true", "null", "Name", "Qty"}          \* keywords are ordinary names after a dot
 Step16(es) == { <<"Sel", e, k, as>> : e \in es, k \in Keys16, as \in BOOLEAN }
 Step1(e) == { <<"Sel", e, k, as>> : k \in Keys16, as \in BOOLEAN }
 DeepRoots == {Id("m"), Id("st"), KwL("this"), Id("np"), Id("undefined")}
